@@ -556,10 +556,11 @@ class _Merger(object):
                     _add_sources(self.src, l_param.name,
                                  self.l.sources, self.r.sources)
                 else:
-                    for i, pokarg in enumerate(self.pokargs):
-                        self.pokargs[i] = pokarg.replace(
-                            kind=pokarg.POSITIONAL_ONLY)
-                    self.pokargs.append(
+                    self.posargs.extend(
+                        pokarg.replace(kind=pokarg.POSITIONAL_ONLY)
+                        for pokarg in self.pokargs)
+                    self.pokargs[:] = []
+                    self.posargs.append(
                         self._concile_meta(l_param, r_param)
                         .replace(kind=l_param.POSITIONAL_ONLY))
                     _add_sources(self.src, l_param.name, self.l.sources)
